@@ -326,3 +326,114 @@ FAMILIES = [
                          k=3, nops=1, cancels=False, _validate_every=11, _max_wall=900),
            nonrepro='inconclusive', bounds='3 activities x 1 op'),
 ]
+
+
+def fam_phases(E, repeats=2):
+    """one activity using the same primitives in successive phases (state left behind by an
+    earlier phase): a Tracked value first watched by an until-scope that is left untriggered and
+    by a waiter that is cancelled, later awaited through comparisons with free operands (equal
+    operands = a path); a regular Pipe used for three successive transfers and a cancelled one.
+    Differentials: heap vs SortedDict backend, python vs python -O (digests), and in the concrete
+    validation run: repeated executions, one with a full garbage collection before every
+    activation, one with the collector off - reclaiming dead objects earlier or later is an
+    'unrelated allocation' effect the trace must not depend on."""
+    from usim import Tracked, Pipe, until
+    from fractions import Fraction
+    x0 = E.int('x0', 1, 3)
+    x1 = E.int('x1', 1, 3)
+    x2 = E.int('x2', 1, 3)
+    x3 = E.int('x3', 1, 3)
+    w = E.int('w', 0, 3)
+    val = E.int('val', 0, 3)
+
+    def run_once(waitqueue, note, gc_mode=None):
+        log = Log(note=note)
+        one, two = E.const(Fraction(1)), E.const(Fraction(2))
+        tr = Tracked(E.const(0))
+        pipe = Pipe(throughput=two)
+
+        async def waiter(name, x):
+            try:
+                await (tr >= x)
+                log(name, 'woke')
+            finally:
+                log(name, 'left')
+
+        async def guard():
+            async with until(tr >= x0):
+                await pipe.transfer(two, throughput=one)
+
+        async def mover(name):
+            await pipe.transfer(two, throughput=one)
+            log(name, 'moved')
+
+        async def root():
+            # phase 1: watchers that never fire (the guard is an activity of its own: once it
+            # has ended, its until-scope is garbage - a reference cycle - that may or may not
+            # have been reclaimed when phase 2 builds an equal comparison)
+            async with Scope() as s:
+                s.do(guard())
+            log('r', 'phase1')
+            async with Scope() as s:
+                lost = s.do(waiter('L', x3))
+                gone = s.do(mover('G'))
+                await instant
+                lost.cancel()
+                gone.cancel()
+            log('r', 'phase2')
+            # phase 2: fresh waiters on comparisons that may equal the old ones
+            async with Scope() as s:
+                s.do(waiter('A', x1))
+                s.do(waiter('B', x2))
+                s.do(waiter('C', x3))
+                s.do(mover('M'))
+                await (time + w)
+                await tr.set(val)
+                log('r', 'set')
+                await (time + 1)
+                await tr.set(E.const(3))
+                log('r', 'set3')
+            # phase 3: the pipe again
+            await pipe.transfer(two, throughput=one)
+            log('r', 'phase3')
+            await pipe.transfer(two)
+            log('r', 'phase4')
+
+        async def bystander():
+            for k in range(4):
+                await (time + 2)
+                log('y', 'tick', k)
+
+        # the probe of the garbage differential keeps no reference to signals or coroutines
+        probe = Probe(check_fifo=True, light=gc_mode is not None)
+        if gc_mode == 'eager':
+            probe.hooks.append(lambda *a: gc.collect())
+        out = simulate(root(), bystander(), log=log, probe=probe, waitqueue=waitqueue)
+        return log.events, out
+
+    t1, out1 = run_once(HQWaitQueue, True)
+    t2, out2 = run_once(SDWaitQueue, False)
+    same_trace(E, t1, t2, 'same-trace-on-both-wait-queue-backends')
+    E.prove(out1.exc is None and out2.exc is None, 'run-ends-normally', (out1.exc, out2.exc))
+    E.reach_if(AND(EQ(x0, x2), NOT(EQ(x1, x2))), 'later-comparison-equals-one-of-an-abandoned-scope')
+    E.reach_if(AND(EQ(x3, x2), NOT(EQ(x1, x2))), 'later-comparison-equals-one-of-a-cancelled-waiter')
+    if E.concrete:
+        for r in range(repeats):
+            tr_, _ = run_once(HQWaitQueue, False, gc_mode='eager')
+            same_trace(E, t1, tr_, 'same-trace-when-garbage-is-collected-at-every-step')
+            tr_, _ = run_once(HQWaitQueue, False, gc_mode='lazy')
+            same_trace(E, t1, tr_, 'same-trace-when-repeated-with-other-memory-layout')
+
+
+FAMILIES.append(
+    Family('phases', fam_phases,
+           quick=dict(), thorough=dict(repeats=3),
+           reach=['later-comparison-equals-one-of-an-abandoned-scope',
+                  'later-comparison-equals-one-of-a-cancelled-waiter'],
+           nonrepro='inconclusive',
+           bounds='one activity re-using a Tracked value (until-scope left untriggered, cancelled '
+                  'waiter, then three waiters on comparisons with free operands in [1,3]) and a '
+                  'regular Pipe (five successive / cancelled transfers); backends, python -O, '
+                  'repeated executions with and without a garbage collection before every activation'))
+QUICK_O_FAMILIES.append('phases')
+THOROUGH_O_FAMILIES.append('phases')
